@@ -107,10 +107,19 @@ Inductive case :=
           (relayed_i : bool) (calls_i : list callt) (honest : bool)
 (* ABCIQuery: KeyPathFn configured, response code, key, number of ops, height, value;
    kp_ok = the key path function succeeded; vtab / atab = outcome of ProofRuntime.VerifyValue /
-   VerifyAbsence (called directly) per candidate root *)
-| CQuery (o : orct) (has_kpfn : bool) (code : Z) (key : string) (nops : Z) (height : Z)
+   VerifyAbsence (called directly) per candidate root; state_val = what the generated
+   application state at the answer's height holds in the store the path names for the answer's
+   key (Some None: the key is absent; None: no such state or store) - ground truth that does not
+   pass through any proof or key-path code *)
+| CQuery (o : orct) (has_kpfn : bool) (code : Z) (qkey : string) (nops : Z) (height : Z)
          (value : option string) (kp_ok : bool) (vtab atab : list (string * bool))
+         (state_val : option (option string))
          (relayed_i : bool) (calls_i : list callt) (honest : bool)
+(* a key path (name, hex-encoded?) printed and parsed back by the implementation:
+   KeyPath.String(), KeyPathToKeys of that (None: error) *)
+| CKeyPath (keys : list (string * bool)) (str_i : string) (dec_i : option (list string))
+(* KeyPathToKeys on an arbitrary string *)
+| CKeyDecode (path : string) (dec_i : option (list string))
 (* ConsensusParams: ValidateConsensusParams ok, height, block.max_bytes, block.max_gas *)
 | CParams (o : orct) (valid : bool) (height max_bytes max_gas : Z)
           (relayed_i : bool) (calls_i : list callt) (honest : bool)
@@ -177,6 +186,13 @@ Fixpoint find_txs (blocks : list (Z * list string)) (h : Z) : list bytes :=
   match blocks with
   | [] => []
   | (h', txs) :: r => if h' =? h then map unhex txs else find_txs r h
+  end.
+
+Definition keys_opt_eqb (m : option (list bytes)) (i : option (list string)) : bool :=
+  match m, i with
+  | Some a, Some b => list_eqb bytes_eqb a (map unhex b)
+  | None, None => true
+  | _, _ => false
   end.
 
 Definition check (c : case) : verdict :=
@@ -298,9 +314,9 @@ Definition check (c : case) : verdict :=
       viol (imp honest relayed_i) 9;
       mism (Bool.eqb relayed_m relayed_i) 39;
       mism (calls_eqb calls_m calls_i) 40 ]
-  | CQuery o has_kpfn code key nops height value kp_ok vtab atab relayed_i calls_i honest =>
+  | CQuery o has_kpfn code qkey nops height value kp_ok vtab atab state_val relayed_i calls_i honest =>
     let orc := mk_oracle o in
-    let r := {| q_code := code; q_key := unhex key; q_nops := nops; q_ops := []; q_height := height;
+    let r := {| q_code := code; q_key := unhex qkey; q_nops := nops; q_ops := []; q_height := height;
                 q_value := option_map unhex value |} in
     let vv := fun (_ root _ _ : bytes) => lookup_tab vtab root in
     let va := fun (_ root _ : bytes) => lookup_tab atab root in
@@ -317,6 +333,17 @@ Definition check (c : case) : verdict :=
                           | None => lookup_tab atab (h_app_hash (lb_header l))
                           end
               end) 4;
+      (* relayed => the application state the verified AppHash commits to holds exactly that
+         value for that key (resp. does not hold the key) *)
+      viol (imp relayed_i
+              match state_val with
+              | None => true
+              | Some sv => match value, sv with
+                           | Some v, Some w => bytes_eqb (unhex v) (unhex w)
+                           | None, None => true
+                           | _, _ => false
+                           end
+              end) 14;
       viol (imp honest relayed_i) 9;
       mism (Bool.eqb relayed_m relayed_i) 31;
       mism (calls_eqb calls_m calls_i) 32 ]
@@ -351,6 +378,20 @@ Definition check (c : case) : verdict :=
       viol (imp honest relayed_i) 9;
       mism (Bool.eqb relayed_m relayed_i) 35;
       mism (calls_eqb calls_m calls_i) 36 ]
+  | CKeyPath keys str_i dec_i =>
+    let kp := map (fun x : string * bool => (unhex (fst x), if snd x then EncHex else EncURL)) keys in
+    let names := map fst kp in
+    first_of [
+      (* what the implementation parses out of what it printed is the key path's keys *)
+      viol (match keys with [] => true | _ =>
+              match dec_i with
+              | Some d => list_eqb bytes_eqb (map unhex d) names
+              | None => false
+              end end) 13;
+      mism (bytes_eqb (kp_string kp) (unhex str_i)) 41;
+      mism (keys_opt_eqb (key_path_to_keys (unhex str_i)) dec_i) 42 ]
+  | CKeyDecode path dec_i =>
+    mism (keys_opt_eqb (key_path_to_keys (unhex path)) dec_i) 42
   | CServed txs i p data_hash valid_i =>
     let ts := map unhex txs in
     let '(rt, dt, pf) := p in
